@@ -235,10 +235,25 @@ impl Ctx {
         self.log(json!({"ev": "BEGIN", "case": name, "k": k}));
         let r = guard(|| f(self));
         if let Err(p) = r {
-            self.inconclusive.push(format!(
-                "panic escaped case {:?}: {} at {}",
-                name, p.message, p.location
-            ));
+            // A panic raised inside the library under test (location in one of its crates) while a
+            // monitor was driving its API is an observation about the library: every property here is
+            // about total functions. A panic located in the harness (or unattributable) is a harness
+            // problem and makes the run inconclusive.
+            let in_library = (p.location.contains("zkchannels-crypto/") || p.location.contains("zkabacus-crypto/"))
+                && !p.location.contains("/verif/harness");
+            if in_library {
+                let loc = crate::props::util::repo_rel(&p.location);
+                let prop = self.prop.clone();
+                self.violation(
+                    &format!("{} library-panic loc={}", prop, loc),
+                    json!({"panic": p.message, "location": p.location, "case": name}),
+                );
+            } else {
+                self.inconclusive.push(format!(
+                    "panic escaped case {:?}: {} at {}",
+                    name, p.message, p.location
+                ));
+            }
         }
         self.log(json!({"ev": "END", "case": name}));
         self.cur_case = None;
